@@ -12,7 +12,8 @@ PROP = {
             "UDP on real loopback sockets (udp:// and rtuoverudp://): a fake device answers one call with a 2-3 frame stream cut into "
             "datagrams: one frame per datagram, coalesced, byte-wise, all / sampled partitions with sizes from {1,6,7,8,frame,frame+1,260}, "
             "empty datagrams, two frames in one datagram of 259/260/261/272 bytes, the 260-byte frame alone, split and with one extra byte; "
-            "compared with the udpSockWrapper model on the datagram list and among themselves.",
+            "compared with the udpSockWrapper model on the datagram list and among themselves."
+            " Scenario seglate: call 1 times out against a silent peer, then the late reply to it followed by the reply to call 2 is cut at every position into bytes present before call 2 and bytes arriving after its request; every cut must give the flat model's result for call 2.",
     "assumptions": [
         "the scripted connection delivers the scripted chunks in order, at most one chunk per Read, and reports the scripted end (deadline / EOF / reset) once they are used up",
         "loopback UDP delivers the datagrams of one sender in order and without loss (they are sent 1 ms apart); a Read on a UDP socket returns one datagram cut to the buffer",
